@@ -296,6 +296,24 @@ class AEval(dtable.Eval):
             if is_node(l) and l["k"] == "Unary" and l["op"] == "*" and is_node(l["expr"]) and l["expr"]["k"] == "Path":
                 env[l["expr"]["path"]] = v
                 return UNIT
+            if is_node(l) and l["k"] == "Field":
+                # `base.f = v`: functional update of the record held by base (recursively for `a.b.c = v`)
+                def upd(target, newv):
+                    while is_node(target) and target["k"] in ("Paren", "Unary", "Ref"):
+                        target = target["expr"]
+                    if is_node(target) and target["k"] == "Path":
+                        env[target["path"]] = newv
+                        return
+                    if is_node(target) and target["k"] == "Field":
+                        cur = self.ex(target["base"], env)
+                        if cur[0] == "ctor" and len(cur) > 3:
+                            fs = dict(cur[3])
+                            fs[str(target["member"])] = newv
+                            upd(target["base"], ("ctor", cur[1], cur[2], tuple(sorted(fs.items()))))
+                            return
+                    raise Unknown("assignment target")
+                upd(l, v)
+                return UNIT
             raise Unknown("assignment target")
         if k == "Macro":
             return self.macro(e, env)
